@@ -1,6 +1,7 @@
 import HT.Model.Decoder
 import HT.Model.Packet
 import HT.Model.Canary
+import HT.Model.Knock
 /-!
 Line-protocol driver: one case per input line, `<model> <args…>`; one output line
 per case.  Core Lean only (so it links as an executable).
@@ -13,6 +14,8 @@ def dispatch (line : String) : String :=
   | "pkt" :: args => Pkt.driver args
   | "can" :: args => Can.driver args
   | "canloop" :: args => Can.loopDriver args
+  | "uset" :: args => Knock.usetDriver args
+  | "knock" :: args => Knock.knockDriver args
   | _ => "bad-model"
 
 partial def loop (h : IO.FS.Stream) (out : IO.FS.Stream) : IO Unit := do
